@@ -387,10 +387,15 @@ class UnifiedRTFEncoder(EncodingStrategy):
         # rtf_title is handled per section via temp_document and renderer
         # so we don't need to pre-calculate it here.
 
-        # Handle page borders (use first section for dimensions)
+        # Handle page borders. The closing border is written into the LAST section's
+        # last row below, so it needs that section's column count.
         # doc_border_top is not used in this scope
+        if isinstance(document.df, list) and document.df:
+            last_section_cols = document.df[-1].shape[1]
+        else:
+            last_section_cols = first_section_cols
         doc_border_bottom_list = BroadcastValue(
-            value=document.rtf_page.border_last, dimension=(1, first_section_cols)
+            value=document.rtf_page.border_last, dimension=(1, last_section_cols)
         ).to_list()
         doc_border_bottom = (
             doc_border_bottom_list[0] if doc_border_bottom_list else None
